@@ -27,7 +27,7 @@ ASSUMPTIONS = ['comparison is with the frame as it was when saved (a derived fra
                'blimpy is the independent reader named by the property; an own SIGPROC/HDF5 parser backs it for the header fields and data',
                'HDF5 round trips are only driven for frames of >= 3 integrations and >= 3 channels (blimpy\'s reader rejects smaller files)',
                'blimpy container conventions (f_start/f_stop as band edges) are not judged: get_waterfall() is judged by its header and data only']
-STARTS = ['synthetic', 'from_data', 'shape', 'loaded_fil', 'loaded_h5', 'loaded_fsel']
+STARTS = ['synthetic', 'from_data', 'shape', 'loaded_fil', 'loaded_h5', 'loaded_fsel', 'loaded_tsel']
 OPS = ['add_noise', 'add_signal', 'get_waterfall', 'copy', 'save_fil', 'save_h5', 'reload_fil', 'reload_h5', 'get_slice', 'dedrift', 'pickle',
        'other_frame', 'retime', 'retune', 'rewrap']
 
@@ -210,7 +210,18 @@ def _run(stg, c, d, R):
         p0 = newpath(ext)
         with common.quiet():
             (base.save_h5 if ext == 'h5' else base.save_fil)(p0)
-            if c['start'] == 'loaded_fsel' and F >= 4:
+            if c['start'] == 'loaded_tsel' and T >= 4:
+                # a blimpy Waterfall opened with a TIME selection (integration indices) handed to the constructor: the frame holds
+                # those integrations and starts when the first of them starts
+                from blimpy import Waterfall as _WF
+                a_i = int(rng.integers(1, T - 2))
+                b_i = int(rng.integers(a_i + 2, T + 1)) if ext != 'h5' else int(rng.integers(min(a_i + 3, T), T + 1))
+                fr = stg.Frame(waterfall=_WF(p0, t_start=a_i, t_stop=b_i))
+                R.check(tuple(fr.shape) == (b_i - a_i, F) and np.allclose(np.asarray(fr.data, dtype=np.float64), base.data[a_i:b_i], rtol=1e-6, atol=0),
+                        'time-selected-waterfall:shape-or-data', shape=list(fr.shape), want=[b_i - a_i, F])
+                R.check(abs(float(fr.t_start) - (float(base.t_start) + a_i * base.dt)) <= 1e-4, 'time-selected-waterfall:frame-t_start',
+                        got=float(fr.t_start) - float(base.t_start), want=a_i * base.dt, first_integration=a_i)
+            elif c['start'] == 'loaded_fsel' and F >= 4:
                 lo_i, hi_i = sorted([int(x) for x in rng.choice(np.arange(F), size=2, replace=False)])
                 hi_i = max(hi_i, lo_i + 1)
                 f_lo = (base.fs[lo_i] - 0.25 * base.df) * 1e-6
